@@ -1208,6 +1208,220 @@ pub unsafe fn bad_string_sweep() -> Result<u64, String> {
     Ok(calls)
 }
 
+/// The last-error slot belongs to the calling thread (the harness itself relies on it: it drives
+/// the API from 16 threads). Two threads, strictly serialised by channels: thread A makes a failing
+/// call; thread B then does one of {nothing, a failing call, a failing call + fetch, a successful
+/// call, a fetch}; A then fetches: it must get the message of its own failure (the text the same
+/// call leaves when made alone), B's slot must hold what B's own calls left, and a thread that
+/// never failed sees no message — also after the failing thread has exited. Returns calls made.
+pub fn thread_sweep() -> Result<u64, String> {
+    use std::sync::mpsc::channel;
+    // failing calls with distinct messages (index -> call)
+    fn failing(k: usize) {
+        unsafe {
+            match k {
+                0 => {
+                    let l = Box::into_raw(haystack_value_make_list());
+                    let _ = haystack_value_remove_list_entry_at(l, 3);
+                    haystack_value_destroy(l);
+                }
+                1 => {
+                    let _ = haystack_value_make_number_with_unit(1.0, cs(b"notAUnit").as_ptr());
+                }
+                2 => {
+                    let _ = haystack_value_from_zinc_string(cs(b"{a:").as_ptr());
+                }
+                3 => {
+                    let n = Box::into_raw(haystack_value_make_number(1.0));
+                    let _ = take_string(haystack_value_get_str_value(n));
+                    haystack_value_destroy(n);
+                }
+                _ => {
+                    let _ = haystack_value_from_json_string(cs(b"{\"_kind\":").as_ptr());
+                }
+            }
+        }
+    }
+    fn succeeding() {
+        unsafe {
+            let n = Box::into_raw(haystack_value_make_number(1.0));
+            let _ = haystack_value_is_number(n);
+            haystack_value_destroy(n);
+        }
+    }
+    let alone: Vec<Option<String>> = (0..5)
+        .map(|k| {
+            std::thread::spawn(move || {
+                failing(k);
+                unsafe { take_error() }
+            })
+            .join()
+            .unwrap()
+        })
+        .collect();
+    if alone.iter().any(|m| m.is_none()) {
+        return Err(format!("thread sweep: a failing call leaves no message even alone: {alone:?}"));
+    }
+    let mut calls = 0u64;
+    for ka in 0..5usize {
+        for kb in 0..5usize {
+            for b_mode in 0..5usize {
+                // b_mode: 0 nothing, 1 failing, 2 failing + fetch, 3 successful call, 4 fetch only
+                let (to_b, b_rx) = channel::<u8>();
+                let (to_a, a_rx) = channel::<Option<String>>();
+                let b = std::thread::spawn(move || {
+                    let _ = b_rx.recv(); // A has failed
+                    let mut seen: Option<String> = None;
+                    match b_mode {
+                        1 => failing(kb),
+                        2 => {
+                            failing(kb);
+                            seen = unsafe { take_error() };
+                        }
+                        3 => succeeding(),
+                        4 => seen = unsafe { take_error() },
+                        _ => {}
+                    }
+                    let _ = to_a.send(seen);
+                    let _ = b_rx.recv(); // A has fetched
+                    unsafe { take_error() }
+                });
+                failing(ka);
+                let _ = to_b.send(1);
+                let b_seen = a_rx.recv().map_err(|e| e.to_string())?;
+                let a_msg = unsafe { take_error() };
+                let a_again = unsafe { take_error() };
+                let _ = to_b.send(2);
+                let b_left = b.join().map_err(|_| "thread B panicked".to_string())?;
+                calls += 4;
+                let what = format!("thread A fails with call #{ka}, then thread B (mode {b_mode}, call #{kb}), then A fetches");
+                if a_msg != alone[ka] {
+                    return Err(format!("error-slot-not-per-thread: {what}: A gets {a_msg:?}, the same call alone leaves {:?}", alone[ka]));
+                }
+                if a_again.is_some() {
+                    return Err(format!("error-slot-not-per-thread: {what}: A can fetch a second message {a_again:?}"));
+                }
+                let (want_seen, want_left) = match b_mode {
+                    1 => (None, alone[kb].clone()),
+                    2 => (alone[kb].clone(), None),
+                    _ => (None, None),
+                };
+                if b_seen != want_seen || b_left != want_left {
+                    return Err(format!("error-slot-not-per-thread: {what}: B fetched {b_seen:?} / was left with {b_left:?}, its own calls leave {want_seen:?} / {want_left:?}"));
+                }
+            }
+        }
+    }
+    // a thread that failed and exited without fetching leaves nothing behind for later threads
+    for k in 0..5usize {
+        std::thread::spawn(move || failing(k)).join().map_err(|_| "thread panicked".to_string())?;
+        let later = std::thread::spawn(|| unsafe { take_error() }).join().map_err(|_| "thread panicked".to_string())?;
+        let here = unsafe { take_error() };
+        calls += 2;
+        if later.is_some() || here.is_some() {
+            return Err(format!("error-slot-not-per-thread: after a thread failed (call #{k}) and exited, another thread finds {later:?} and this thread {here:?}"));
+        }
+    }
+    Ok(calls)
+}
+
+/// Every integer argument of every function over its extremes: list / grid indices 0, 1, len-1,
+/// len, len+1, 7, 2^31, 2^32 ± 1, 2^63 ± 1, usize::MAX - 1, usize::MAX on containers of 0, 1 and 3
+/// entries through get / set / remove / row-at; hour / minute / second / millisecond / year / month
+/// / day over 0, 1, the field's limit ± 1, 999, 1000, 2^31, u32::MAX (i32::MIN / MAX for the year).
+/// In range: the Rust answer. Out of range: the sentinel and a message, the container unchanged —
+/// never a panic inside the C boundary. Returns the number of calls made.
+pub unsafe fn numeric_sweep() -> Result<u64, String> {
+    let mut calls = 0u64;
+    let _ = take_error();
+    let idx: Vec<usize> = vec![0, 1, 2, 3, 4, 7, 1 << 31, (1 << 32) - 1, 1 << 32, (1 << 32) + 1, (1 << 63) - 1, 1 << 63, (1 << 63) + 1, usize::MAX - 1, usize::MAX];
+    for len in [0usize, 1, 3] {
+        for &i in &idx {
+            let text = format!("[{}]", (0..len).map(|k| k.to_string()).collect::<Vec<_>>().join(","));
+            let gtext = format!("ver:\"3.0\"\na\n{}", (0..len).map(|k| format!("{k}\n")).collect::<String>());
+            // get
+            let list = opt_box(haystack_value_from_zinc_string(cs(text.as_bytes()).as_ptr()));
+            let mut out: *const Value = std::ptr::null();
+            let r = haystack_value_get_list_entry_at(list, i, &mut out);
+            calls += 1;
+            let ok = if i < len { r == ResultType::TRUE && !out.is_null() && matches!(&*out, Value::Number(n) if n.value == i as f64) } else { r == ResultType::ERR };
+            if !ok {
+                haystack_value_destroy(list);
+                return Err(format!("get_list_entry_at(list of {len}, {i}) returned {}", rt(r)));
+            }
+            check_error(i >= len, &format!("get_list_entry_at(list of {len}, {i})"))?;
+            // set
+            let e = Box::into_raw(haystack_value_make_str(cs(b"new").as_ptr()).expect("str"));
+            let r = haystack_value_set_list_entry_at(list, i, e);
+            calls += 1;
+            let ok = if i < len { r == ResultType::TRUE } else { r == ResultType::ERR };
+            let n_after = haystack_value_get_list_len(list);
+            haystack_value_destroy(e);
+            if !ok || n_after != len {
+                haystack_value_destroy(list);
+                return Err(format!("set_list_entry_at(list of {len}, {i}) returned {}, length afterwards {n_after}", rt(r)));
+            }
+            check_error(i >= len, &format!("set_list_entry_at(list of {len}, {i})"))?;
+            // remove
+            let r = haystack_value_remove_list_entry_at(list, i);
+            calls += 1;
+            let n_after = haystack_value_get_list_len(list);
+            let ok = if i < len { r == ResultType::TRUE && n_after == len - 1 } else { r == ResultType::ERR && n_after == len };
+            haystack_value_destroy(list);
+            if !ok {
+                return Err(format!("remove_list_entry_at(list of {len}, {i}) returned {}, length afterwards {n_after}", rt(r)));
+            }
+            check_error(i >= len, &format!("remove_list_entry_at(list of {len}, {i})"))?;
+            // grid row
+            let grid = opt_box(haystack_value_from_zinc_string(cs(gtext.as_bytes()).as_ptr()));
+            if grid.is_null() {
+                return Err(format!("numeric sweep: set-up grid does not decode: {gtext:?}"));
+            }
+            let row = Box::into_raw(haystack_value_init());
+            let r = haystack_value_get_grid_row_at(grid, i, row);
+            calls += 1;
+            let ok = if i < len { r == ResultType::TRUE && matches!(&*row, Value::Dict(_)) } else { r == ResultType::ERR };
+            let glen = haystack_value_get_grid_len(grid);
+            haystack_value_destroy(row);
+            haystack_value_destroy(grid);
+            if !ok || glen != len {
+                return Err(format!("get_grid_row_at(grid of {len}, {i}) returned {}, rows afterwards {glen}", rt(r)));
+            }
+            check_error(i >= len, &format!("get_grid_row_at(grid of {len}, {i})"))?;
+        }
+    }
+    let small: Vec<u32> = vec![0, 1, 11, 12, 13, 23, 24, 25, 28, 29, 30, 31, 32, 59, 60, 61, 99, 100, 999, 1000, 1001, 1 << 31, u32::MAX - 1, u32::MAX];
+    for &a in &small {
+        for &b in &[0u32, 1, 59, 60, 999, 1000, u32::MAX] {
+            for k in 0..7 {
+                let (what, r) = match k {
+                    0 => (format!("make_time({a},{b},{b})"), haystack_value_make_time(a, b, b)),
+                    1 => (format!("make_time({b},{a},{b})"), haystack_value_make_time(b, a, b)),
+                    2 => (format!("make_time({b},{b},{a})"), haystack_value_make_time(b, b, a)),
+                    3 => (format!("make_time_millis({b},{b},{b},{a})"), haystack_value_make_time_millis(b, b, b, a)),
+                    4 => (format!("make_time_millis({a},{b},{b},{b})"), haystack_value_make_time_millis(a, b, b, b)),
+                    5 => (format!("make_date(2021,{a},{b})"), haystack_value_make_date(2021, a, b)),
+                    _ => (format!("make_date(2020,{b},{a})"), haystack_value_make_date(2020, b, a)),
+                };
+                calls += 1;
+                let failed = r.is_none();
+                drop(r);
+                check_error(failed, &what)?;
+            }
+        }
+    }
+    for y in [i32::MIN, i32::MIN + 1, -262_144, -262_143, -10_000, -1, 0, 1, 9999, 10_000, 262_142, 262_143, 262_144, i32::MAX - 1, i32::MAX] {
+        for (m, d) in [(1u32, 1u32), (2, 29), (12, 31), (0, 0), (13, 32)] {
+            let r = haystack_value_make_date(y, m, d);
+            calls += 1;
+            let failed = r.is_none();
+            drop(r);
+            check_error(failed, &format!("make_date({y},{m},{d})"))?;
+        }
+    }
+    Ok(calls)
+}
+
 /// Failing calls whose error message quotes long caller text: every text-taking entry point is
 /// given malformed input built from 1-, 2-, 3- and 4-byte characters, preceded by 0..3 ASCII
 /// bytes, of total sizes around 60, 120, 250..260, 510..515, 1020..1030, 4090..4100 and 65 536
